@@ -637,7 +637,9 @@ func checkB(cs Case, ev *evid.Collector) *evid.Violation {
 	}
 	for _, cd := range e.cands {
 		v := &evid.Violation{Sig: cd.sig, Msg: cd.msg}
-		if stray(cd.copy) {
+		// (what a copy observed in its separate referrer target layout is reported as such: on a tree that does not lock that
+		// layout every copy shows it, failed or not)
+		if stray(cd.copy) && (cd.late || !strings.HasSuffix(cd.sig, "-referrer-target-layout")) {
 			v = evid.V(sigStray, "ImageCopy #%d (node %d -> tag %s, referrers=%v digest-tags=%v) failed with %q; it returned - releasing its GC lock - while goroutines it had started were still copying blobs into the layout (event observed after the return: %v), and a collection ran beside them. Observation: %s",
 				cd.copy, c.Copies[cd.copy].Node, copyTag(cd.copy), c.Copies[cd.copy].Referrers, c.Copies[cd.copy].DigestTags, short(e.copies[cd.copy].err), cd.late, cd.msg)
 		} else if cd.late {
